@@ -1,5 +1,7 @@
+import Smpl.Props.C04
 import Smpl.Props.C07
 import Smpl.Props.C08
 import Smpl.Props.C11
+import Smpl.Props.C12
 import Smpl.Props.C18
 import Smpl.Props.C19
